@@ -198,6 +198,24 @@ CLAIMS = {
              'bound) are NOT decided: they quantify over real arithmetic.',
         note='Trusted: ' + TB + '. See clauses_not_decided in the '
              'evidence; the claim is limited to the four listed clauses.'),
+    'C14': dict(
+        cat='other', ref='DESIGN.md section 2, C14',
+        tech='symbolic interpretation of the partition/grid code on '
+             'symbolic coordinate vectors (exact rational identities), '
+             'enumeration of index expressions and of the ordering cases of '
+             'point location, finite-model evaluation of the normalisers',
+        text='Cell boundaries, cell sizes and boundary fractions are proved '
+             'for symbolic coordinates of every length in the bound; every '
+             'arm of the four parameter-completion routines satisfies the '
+             'tiling relation identically in min, max, n, dx for all four '
+             'nodes-on-boundary cases; __getitem__ selects the boundaries '
+             'of the chosen cells for several hundred index expressions on '
+             'symbolic boundaries; index() is decided on all ordering cases;'
+             ' the boundary-flag normaliser returns pairs on every path.',
+        note='Trusted: ' + TB + '; np.searchsorted/linspace summaries.  '
+             'isclose-based boundary detection, NumPy fancy-index semantics '
+             'and floating-point ties are not decided; sub-partition '
+             'constructors insert/append/squeeze are not covered.'),
 }
 
 NOT_YET = 'check not implemented yet in this commit (DESIGN.md section 6 build order)'
